@@ -686,8 +686,8 @@ fn main() {
                 last = now;
             }
             if idle >= 25 {
-                println!("HANG");
-                std::io::stdout().flush().ok();
+                // stdout is locked by the main thread for its whole life: report through stderr and the exit code
+                eprintln!("HANG");
                 std::process::exit(3);
             }
         }
